@@ -98,6 +98,8 @@ abbrev M (α : Type) (β : Type) := St α → Except Err (β × St α)
 
 /-- the largest array the model allocates (the C code is limited only by `malloc`) -/
 def maxCells : Nat := 2000000
+/-- the longest string the model builds -/
+def maxStr : Nat := 4000000
 
 /-- x86-64 result of a `(long)` conversion that C leaves undefined -/
 def longIndefinite : Int := -9223372036854775808
@@ -203,7 +205,9 @@ def applyBin (op : BinOp) (a b : Val α) : M α (Val α) := fun s =>
   | .plus =>
     (match a, b with
      | .num x, .num y => .ok (.num (BNum.add x y), s)
-     | .str x, .str y => .ok (.str (x ++ y), s)
+     | .str x, .str y =>
+       -- the C code is limited only by `malloc`; the model stops at `maxStr` characters (not judged)
+       if x.length + y.length > maxStr then .error .resource else .ok (.str (x ++ y), s)
      | _, _ => .error .typeMismatch)
   | .minus =>
     (match a, b with
@@ -403,7 +407,7 @@ def eval (hook : String → M α (Val α)) : Expr α → M α (Val α)
       | .ok sa =>
         match evalInt hook n s1 with
         | .error e => .error e
-        | .ok (i, s2) => .ok (.str (padStr sa i), s2)
+        | .ok (i, s2) => if i > Int.ofNat maxStr then .error .resource else .ok (.str (padStr sa i), s2)
   | .mid2 t i => fun s =>
     match eval hook t s with
     | .error e => .error e
